@@ -69,7 +69,9 @@ pub fn run(seed: u64, ntraces: usize) {
         // directed (native managers): issuance, then the minter calls deployInterchainToken again naming someone else; or a failed issuance retried by the minter
         if ty == 0 { let extra: Vec<(u64, u64)> = if t % 2 == 0 { vec![(14, 2), (14, 44), (16, 1), (12, 24), (14, 24), (16, 1), (12, 43), (9, 23), (14, 34)] } else { vec![(14, 2), (14, 44), (16, 0), (14, 24), (16, 1), (12, 24), (14, 3)] }; forced.extend(extra); }
         // an account holding BOTH roles (the minter after the operator hands operatorship to it) proposes one of them: only that one can be accepted
-        if ty == 0 && operator.is_some() { forced.extend(vec![(6, 12), (7, 24), (11, 42), (8, 42), (10, 23), (8, 32), (11, 32)]); }
+        // ... first: it proposes operatorship AND THEN mintership to the same account while the first proposal is pending -- the second proposal replaces the first
+        // (operatorship can no longer be accepted, mintership can, once); the account hands mintership back and the schedule goes on
+        if ty == 0 && operator.is_some() { forced.extend(vec![(6, 12), (7, 24), (10, 24), (8, 42), (11, 42), (11, 42), (9, 42), (8, 42), (7, 24), (11, 42), (8, 42), (10, 23), (8, 32), (11, 32)]); }
         for _ in 0..(nops + forced.len()) {
             now += if !forced.is_empty() { 1 } else { match r.below(8) { 0 => EPOCH_TIME, 1 => EPOCH_TIME - (now % EPOCH_TIME), 2 => (EPOCH_TIME - (now % EPOCH_TIME)).saturating_sub(1), _ => r.below(500) } };
             w.set_time(now);
